@@ -27,7 +27,7 @@ def build_cases(tier, seed):
         n += 1
         add(p, 'full-s1-%d' % n)
     n_full1 = len(cases) - n_core
-    big = 260 if tier == 'quick' else 4000
+    big = 200 if tier == 'quick' else 4000
     k = 0
     for size, share in ((4, 0.4), (6, 0.4), (9, 0.2)):
         for p in shapes.sample(shapes.general_program(size, depth=2 if size < 9 else 3), int(big * share), seed * 7919 + size):
@@ -46,7 +46,7 @@ def run(tier, seed):
     cases, counts = build_cases(tier, seed)
     budget = common.tier_budget(tier, 70, 900)
     items = [{'case': c, 'timeout_ms': 4000, 'max_paths': 600 if tier == 'quick' else 3000,
-              'budget_s': 20 if tier == 'quick' else 120} for c in cases]
+              'budget_s': 8 if tier == 'quick' else 120} for c in cases]
     results, skipped = report.run_pool(common.script_worker, items, budget_s=budget)
     return report.finish(
         PROP, tier, seed, 'exploration', results, skipped,
